@@ -253,6 +253,12 @@ class StoreAnalysis(object):
                 continue
             self._expr_events(r, out)
         if node.kind == 'stmt' and isinstance(a, ast.Assign):
+            n_store_targets = sum(1 for t in assigned_targets(a) if store_attr(t))
+            if n_store_targets > 1 and not isinstance(a.value, ast.Tuple):
+                out.append(Event('alias', a))
+            elif n_store_targets >= 1 and (store_attr(a.value, self.fi) or
+                                           (isinstance(a.value, ast.Name) and self._holds_store_object(a.value.id, a))):
+                out.append(Event('alias', a))
             for t in assigned_targets(a):
                 stn = store_attr(t)
                 if stn:
@@ -275,6 +281,19 @@ class StoreAnalysis(object):
                 if isinstance(t, ast.Name):
                     out.append(Event('assign', a, name=t.id, arg=None))
         return out
+
+    def _holds_store_object(self, name, stmt):
+        """is *name* a local that was bound to a fresh store object and is used for
+        more than one store (tmp = buffer_type(); _buffer = tmp; _before = tmp)?"""
+        uses = 0
+        fresh = False
+        for n in ast.walk(self.fi.node):
+            if isinstance(n, ast.Assign):
+                if any(isinstance(t, ast.Name) and t.id == name for t in n.targets) and is_fresh_store(n.value):
+                    fresh = True
+                if isinstance(n.value, ast.Name) and n.value.id == name and any(store_attr(t) for t in assigned_targets(n)):
+                    uses += sum(1 for t in assigned_targets(n) if store_attr(t))
+        return fresh and uses > 1
 
     def _expr_events(self, root, out):
         from .astx import calls_in
@@ -346,6 +365,11 @@ class StoreAnalysis(object):
             else:
                 usuf = None
             return st.copy(usuf=usuf, uexact=uexact)
+        if k == 'alias':
+            self.problem(ev.node, 'inv-aliased-stores',
+                         'both stores are bound to the SAME buffer object: every chunk appended to _before and then to '
+                         '_buffer lands in it twice (the pending text is duplicated)')
+            return st
         if k == 'seek':
             self.seeks.append(ev)
             if ev.store not in st.seeked:
